@@ -4,7 +4,8 @@
 From Coq Require Import Floats.
 From EF Require Import Model.Base Gen.Tables Model.Lexer Model.Ast Model.Parser Model.Code Model.Value Model.Env
                        Model.Reflect Model.Compiler Model.Optimizer Model.VM Model.Verifier Spec.Moded Proofs.VerifierProofs Proofs.StructProofs Proofs.ModedProofs Proofs.OptModedProofs.
-From EF Require Import Model.OptSafe.
+From EF Require Import Model.OptSafe Model.Api.
+From EF Require Proofs.PreparedProofs.
 Open Scope N_scope.
 
 (* what acceptance by the verifier means, instruction by instruction *)
@@ -121,3 +122,39 @@ Theorem C18_optimized_never_underflows : forall fuelc (ast : program) p p',
   run_main o (pconsts p') (pfuncs p') fns obj fuel (pmain p') m = (out, m') ->
   out <> OErr EInternal.
 Proof. exact OptModedProofs.optimized_run_never_underflows. Qed.
+
+(* SINCE THE REPAIR OF D19 Prepare itself refuses scripts that are not well-moded, so the class is no longer
+   a hypothesis: WHENEVER PREPARE ACCEPTS A SCRIPT - any evaluator, any flag - the compiled program is well
+   formed: main body and every function body structurally sound, functions end in a return, and every body
+   has a stack-depth annotation that the verifier's check accepts. *)
+Theorem C18_prepared_is_well_formed : forall o e flag u p e',
+  prepare o e flag = (PrepOk u p, e') ->
+  (StructProofs.body_ok (pconsts u) (pmain u) /\
+   Forall (fun nf => StructProofs.body_ok (pconsts u) (fcode (snd nf)) /\
+                     StructProofs.ends_in_return (fcode (snd nf))) (pfuncs u)) /\
+  (ModedProofs.has_ann (pconsts u) (pmain u) /\
+   Forall (fun nf => ModedProofs.has_ann (pconsts u) (fcode (snd nf))) (pfuncs u)).
+Proof. exact PreparedProofs.prepared_is_well_formed. Qed.
+
+(* ... hence no run of ANY body of a prepared program, calls into other bodies included, ends in one of the
+   machine's internal errors - unless a call returned no value *)
+Theorem C18_prepared_never_underflows : forall o e flag u p e',
+  prepare o e flag = (PrepOk u p, e') ->
+  forall code, ModedProofs.body_of u code ->
+  forall fns obj fuel m out m', stk m = [] ->
+  exec o (pconsts u) (pfuncs u) fns obj fuel code 0 m = (out, m') ->
+  ModedProofs.calls_push o (pconsts u) (pfuncs u) fns obj fuel code 0 m -> out <> OErr EInternal.
+Proof. exact PreparedProofs.prepared_never_underflows. Qed.
+
+(* the script TEXT of finding D19, `a = b = 3;`: it parses (to the tree of C18_valueless_refuted) and the
+   compiler accepts it, but the assignment `b = 3` stands where a value is needed - Prepare rejects it, with
+   or without optimisation, and leaves the evaluator as it was *)
+Theorem C18_valueless_rejected_by_prepare :
+  let o := VerifierProofs.stub_stdlib in
+  let text := L "a = b = 3;" in
+  exists pc,
+    parse_script (parse_float o) max_depth text = ParseOk VerifierProofs.valueless_ast /\
+    compile_program (4 * List.length text + 40) VerifierProofs.valueless_ast = CompOk pc /\
+    well_moded VerifierProofs.valueless_ast = false /\
+    forall flag, prepare o (new_eval text) flag = (PrepReject, new_eval text).
+Proof. exact VerifierProofs.valueless_rejected_by_prepare. Qed.
